@@ -103,6 +103,12 @@ def ensure_all(need_driver=True, need_harness=True):
         info = regenerate_tables()
         if need_driver:
             build_driver()
+    # the lexical skeleton of the parsers, source against model (translator/skeleton.py)
+    try:
+        import skeleton
+        info["skeleton"] = skeleton.compare(REPO, COQ)
+    except Exception as e:
+        info["skeleton"] = dict(functions=0, literals=0, diffs=["skeleton extraction failed: %r" % (e,)])
     return info
 
 # ------------------------------------------------------------------ proof step
@@ -151,6 +157,8 @@ def proof_step(pid, thorough=False):
     vfile = os.path.join(COQ, "theories", "Props", pid + ".v")
     src = strip_comments(open(vfile).read())
     names = re.findall(r"^\s*(?:Theorem|Lemma|Corollary)\s+([A-Za-z0-9_']+)", src, re.M)
+    # examples (non-vacuity witnesses, concrete derivations) count when the file asks for their assumptions
+    names += [n for n in re.findall(r"^\s*Example\s+([A-Za-z0-9_']+)", src, re.M) if ('Print Assumptions %s.' % n) in src]
     res["obligations"] = len(names)
     with Lock():
         for f in glob.glob(os.path.join(COQ, "assumptions", pid + ".*.out")):
@@ -187,6 +195,8 @@ def proof_step(pid, thorough=False):
         res["coqchk"] = txt[-1500:]
         if r.returncode != 0:
             res["problems"].append("coqchk failed")
+        elif "* Axioms: <none>" not in txt:
+            res["problems"].append("coqchk lists axioms: " + txt[txt.find("* Axioms"):][:400])
     res["ok"] = (disc == len(names)) and not res["problems"]
     return res
 
@@ -197,9 +207,28 @@ def hexs(b):
 def unhexs(s):
     return b"" if s == "-" else bytes.fromhex(s)
 
-def run_lines(binary, stage, lines, shards=NPROC, timeout=600, env=None, cwd=None):
+def _big_stack():
+    # the extracted model recurses over lists (app, map are not tail recursive): give the children the largest stack allowed
+    import resource
+    try:
+        soft, hard = resource.getrlimit(resource.RLIMIT_STACK)
+        resource.setrlimit(resource.RLIMIT_STACK, (hard, hard))
+    except Exception:
+        pass
+
+def run_lines(binary, stage, lines, shards=NPROC, timeout=600, env=None, cwd=None, _retry=True):
     """feed `lines` (list of str) to `binary stage` over up to `shards` processes; returns list of output lines
-    (one per input line).  A shard that dies yields 'CRASH' for its missing lines."""
+    (one per input line).  A process that dies or hangs yields 'CRASH' for the line it was working on; the lines queued
+    behind it in the same process are run again in fresh processes, so one bad case does not hide the others."""
+    res = _run_lines_once(binary, stage, lines, shards, timeout, env, cwd)
+    for _ in range(6 if _retry else 0):
+        todo = [i for i, r in enumerate(res) if r == "SKIPPED"]
+        if not todo: break
+        again = _run_lines_once(binary, stage, [lines[i] for i in todo], shards, timeout, env, cwd)
+        for i, r in zip(todo, again): res[i] = r
+    return res
+
+def _run_lines_once(binary, stage, lines, shards, timeout, env, cwd):
     n = len(lines)
     if n == 0:
         return []
@@ -207,7 +236,7 @@ def run_lines(binary, stage, lines, shards=NPROC, timeout=600, env=None, cwd=Non
     chunks = [lines[i::k] for i in range(k)]
     procs = []
     for ch in chunks:
-        p = subprocess.Popen([binary, stage], stdin=subprocess.PIPE, stdout=subprocess.PIPE, stderr=subprocess.DEVNULL, env=env, cwd=cwd)
+        p = subprocess.Popen([binary, stage], stdin=subprocess.PIPE, stdout=subprocess.PIPE, stderr=subprocess.DEVNULL, env=env, cwd=cwd, preexec_fn=_big_stack)
         procs.append(p)
     # write inputs via threads to avoid pipe deadlock
     import threading
@@ -296,6 +325,9 @@ class Check:
         if translator is not None:
             self.cov["translator_fallback"] = translator["fallback"]
             self.cov["translator_message"] = translator["message"]
+            if translator.get("skeleton"):
+                sk = translator["skeleton"]
+                self.cov["parser_skeleton"] = "%d parser functions, %d literals (tags, messages, delimiter sets) equal in source and model, in order" % (sk["functions"], sk["literals"]) if not sk["diffs"] else "DIFFERS: " + "; ".join(sk["diffs"][:3])
         self.cov.update(self.notes)
         self.cov["trusted_base"] = TRUSTED_BASE + self.cov["trusted_base"]
         ev = dict(property_id=self.pid, tier=self.tier, seed=self.seed, level=level, coverage=self.cov,
